@@ -82,7 +82,10 @@ def gen_program(rng, fw, maxlen):
             ins = {"k": k, "r": r, "shape": [(-1 if (rng.random() < 0.3 and j == 0) else x) for j, x in enumerate(ns)]}
         elif k == "narrow" and rk >= 1:
             ax = rng.randrange(rk)
-            st = rng.randint(0, s[ax]); ln = rng.randint(0, s[ax] - st); ins = {"k": k, "r": r, "axis": ax, "start": st, "len": ln}; ns = list(s); ns[ax] = ln
+            st = rng.randint(0, s[ax]); ln = rng.randint(0, s[ax] - st)
+            # `split([st, ln, rest], axis)` and ONE of its three pieces (the model's `narrow` takes the piece's own start and length)
+            sizes = [st, ln, s[ax] - st - ln]; piece = rng.choice([0, 1, 1, 2, 2])
+            ins = {"k": k, "r": r, "axis": ax, "start": sum(sizes[:piece]), "len": sizes[piece], "split": sizes, "piece": piece}; ns = list(s); ns[ax] = sizes[piece]
         elif k in ("cat", "stack"):
             same = [j for j, t in enumerate(shapes) if t == s]
             rs = [rng.choice(same) for _ in range(rng.randint(1, 3))]
